@@ -1976,6 +1976,30 @@ func (g *G) Case() *core.Case {
 	for _, f := range g.files {
 		c.Files[dir+"/"+f.Name] = g.renderSrcFile(f)
 	}
+	if !g.P.ExecSafe && !g.gopath && g.Chance(20) {
+		// objects in and below the source directory which are NOT part of the package moq loads: test files,
+		// files excluded by a build constraint, testdata, a nested module. None of them may influence the output.
+		for k := 0; k < 1+g.Int(0, 2); k++ {
+			switch g.Int(0, 5) {
+			case 0:
+				c.Files[dir+"/zz_noise_test.go"] = "package " + name + "\n\nimport zzs \"strings\"\n\ntype zzNoise struct{}\n\nvar _ = zzs.ToUpper\n"
+			case 1:
+				if cfg.DestKind != "test" {
+					c.Files[dir+"/zz_ext_test.go"] = "package " + name + "_test\n\nimport zzb \"bytes\"\n\nvar _ zzb.Buffer\n"
+				}
+			case 2:
+				c.Files[dir+"/zz_ignored.go"] = "//go:build ignore\n\npackage main\n\nimport (\n\tzzctx \"context\"\n\tzzio \"io\"\n\tzzhttp \"net/http\"\n)\n\nvar (\n\t_ zzctx.Context\n\t_ zzio.Reader\n\t_ zzhttp.Handler\n)\n\nfunc main() {}\n"
+			case 3:
+				c.Files[dir+"/testdata/broken.go"] = "package broken\n\nfunc {\n"
+			case 4:
+				c.Files[dir+"/doc.go"] = "// Package " + name + " has a file with nothing but comments.\n//\n// Deprecated: no.\npackage " + name + "\n\n// trailing comment\n"
+			default:
+				c.Files[dir+"/nestedmod/go.mod"] = "module example.org/nested\n\ngo 1.24\n"
+				c.Files[dir+"/nestedmod/n.go"] = "package nestedmod\n\nimport zzt \"time\"\n\ntype T = zzt.Duration\n"
+			}
+		}
+		g.label("src:noise-files")
+	}
 	if g.gopath {
 		// GOPATH layout: everything lives under src/<module path>/, there is no go.mod
 		c.Gopath = true
